@@ -1,11 +1,44 @@
-PROP = {
-    "kani_groups": ["hk_batcher"],
-    "smt": [],
-    "technique": "bounded model checking (Kani/CBMC) of one-step harnesses over the real emit_batcher code",
-    "functions": [],
-    "bounds": "",
-    "outside": "",
-    "stubs": [],
-    "assumptions": [],
-    "timeout": {"quick": 900, "thorough": 3600},
-}
+PROP = {'kani_groups': ['hk_batcher'],
+ 'smt': [],
+ 'technique': 'bounded model checking (Kani/CBMC) of one-step inductive sender harnesses over the real emit_batcher '
+              'code from an arbitrary valid state: the capacity invariant is shown preserved by every operation, so '
+              'it holds after any history',
+ 'functions': ['Sender::{send, try_send, send_or_wait, when_empty}, BatchError::{retry, no_retry, '
+               'try_into_retryable, into_retryable}',
+               'internal_metrics::Counter (queue_full_truncated, queue_full_blocked) as read through the injected '
+               'snapshot'],
+ 'bounds': 'capacity 1..=3 (the invariant and the step are independent of history length and of the number of '
+           'senders: arbitrary pre-state), <= 1 (thorough 2) watchers of each kind; send_or_wait: capacity <= 2 '
+           '(thorough 3), <= 2 wait rounds, arbitrary clock readings, shared state arbitrarily replaced during each '
+           'wait',
+ 'outside': 'CANNOT BE ENCODED (Kani executes one thread, no OS): batcher/src/tokio.rs and web.rs entirely; the '
+            'blocking wrappers of batcher/src/sync.rs (Trigger/condvar wait_timeout, Instant, thread spawn/join, its '
+            'block_on); wall-clock time; real unwinding; the std mutex itself (assumed). The multi-step composition '
+            '(any number of senders, any interleaving, histories of any length) is a WRITTEN induction over the '
+            'solver-checked one-step obligations (harness/hk_batcher/src/lib.rs), not a solver result; a bounded '
+            'multi-step schedule harness did not fit CBMC (20 min symex, no verdict). Also outside: capacities > 3 '
+            '(no code path depends on the value beyond the comparison with len); wall time of `emit` under a stalled '
+            "worker; blocking_send's own timeout arithmetic (Instant/condvar) — only the loop it drives "
+            '(send_or_wait) is covered; the emitter-specific Channel impls (emit_file::EventBatch, emit_otlp '
+            'Channel) and their len/clear; capacity 0 (excluded by the property)',
+ 'stubs': ['batcher:mutex — std::sync::Mutex in batcher/src/lib.rs -> single-owner cell with the same lock() API, an '
+           'acquisition counter and a hook called before every acquisition; asserts the lock is never re-acquired '
+           "while held. Mutual exclusion itself is std's contract and is ASSUMED",
+           'batcher:catch-unwind — std::panic::catch_unwind -> panic plan: the i-th guarded call either runs its '
+           'closure and returns Ok, or (plan bit i) does not run it, drops it and returns Err; partial effects of a '
+           'closure that panics half-way are not modelled',
+           'inject/batcher.rs: read-only snapshot, constructor of a (Sender, Receiver) pair from an explicit state '
+           '(through `bounded`), pub wrappers around send_or_wait / Watchers / Batch::new / Retry / Delay / Capacity '
+           '/ CatchUnwind — no logic'],
+ 'assumptions': ['pre-state of every one-step harness: 1 <= capacity <= 3, pending <= capacity (representation '
+                 'invariant I0, shown preserved by every sender step); everything else arbitrary',
+                 'Channel instantiation: ArrQ<4>, a fixed-array FIFO of u8 implementing the public Channel trait '
+                 '(Vec::push with symbolic length costs 9 M SAT variables); other Channel impls are outside',
+                 'std::sync::Mutex provides mutual exclusion (assumed, replaced)',
+                 'overflow rule (queue = [new item], truncation +1) is claimed for an OPEN channel; on a closed '
+                 "channel (receiver gone) only 'nothing is enqueued' is claimed (pinned tree: closed+full send "
+                 'clears the dead queue and counts a truncation)',
+                 'try_send / send_or_wait on a closed channel return an error WITHOUT the item (not silent, but not '
+                 'handed back); handing back is claimed for the full/timeout case the property names'],
+ 'timeout': {'quick': 900, 'thorough': 3600},
+ 'slow_first': ['send_or_wait']}
